@@ -7,6 +7,7 @@ import (
 	"fmt"
 	"os"
 	"path/filepath"
+	"regexp"
 	"runtime"
 	"runtime/debug"
 	"runtime/pprof"
@@ -60,10 +61,81 @@ func loadRegistry() (*Registry, error) {
 	return &r, nil
 }
 
+// Cut: a /repo function that harnesses may replace by a contract stub. The real declaration is renamed to
+// <name>__real in an overlay copy generated from the current source; the harness overlay declares a function
+// of the original name that delegates to <name>__real unless the harness activates the cut (rt.CutActive).
+type Cut struct {
+	Pkg  string `json:"pkg"`  // directory relative to the module
+	File string `json:"file"` // file declaring the function
+	Recv string `json:"recv"` // receiver type name ("" for a plain function)
+	Name string `json:"name"`
+}
+
+func loadCuts() ([]Cut, error) {
+	b, err := os.ReadFile(filepath.Join(verifRoot, "harness", "cuts.json"))
+	if err != nil {
+		if os.IsNotExist(err) {
+			return nil, nil
+		}
+		return nil, err
+	}
+	var cs struct {
+		Cuts []Cut `json:"cuts"`
+	}
+	if err := json.Unmarshal(b, &cs); err != nil {
+		return nil, fmt.Errorf("cuts.json: %v", err)
+	}
+	return cs.Cuts, nil
+}
+
+// cutOverlays returns, per source file path under /repo, the rewritten content (real declarations renamed).
+func cutOverlays() (map[string][]byte, error) {
+	cuts, err := loadCuts()
+	if err != nil {
+		return nil, err
+	}
+	out := map[string][]byte{}
+	for _, c := range cuts {
+		path := filepath.Join(repoRoot, c.Pkg, c.File)
+		src, ok := out[path]
+		if !ok {
+			src, err = os.ReadFile(path)
+			if err != nil {
+				return nil, fmt.Errorf("cut %s.%s: %v", c.Pkg, c.Name, err)
+			}
+		}
+		var re *regexp.Regexp
+		if c.Recv != "" {
+			re = regexp.MustCompile(`(?m)^func \((\w+) \*?` + regexp.QuoteMeta(c.Recv) + `\) ` + regexp.QuoteMeta(c.Name) + `\(`)
+		} else {
+			re = regexp.MustCompile(`(?m)^func ` + regexp.QuoteMeta(c.Name) + `\(`)
+		}
+		loc := re.FindIndex(src)
+		if loc == nil {
+			return nil, fmt.Errorf("cut target %s.%s not found in %s (the source changed shape)", c.Recv, c.Name, path)
+		}
+		decl := string(src[loc[0]:loc[1]])
+		renamed := strings.Replace(decl, " "+c.Name+"(", " "+c.Name+"__real(", 1)
+		if c.Recv == "" {
+			renamed = strings.Replace(decl, "func "+c.Name+"(", "func "+c.Name+"__real(", 1)
+		}
+		src = append(append(append([]byte{}, src[:loc[0]]...), []byte(renamed)...), src[loc[1]:]...)
+		out[path] = src
+	}
+	return out, nil
+}
+
 func loadProgram(pkgs []string) (*symex.Program, error) {
 	ov, err := symex.OverlayFromDir(filepath.Join(verifRoot, "harness", "overlay"), repoRoot)
 	if err != nil {
 		return nil, err
+	}
+	cov, err := cutOverlays()
+	if err != nil {
+		return nil, err
+	}
+	for p, b := range cov {
+		ov[p] = b
 	}
 	pats := []string{modulePath + "/zzverifrt"}
 	seen := map[string]bool{}
